@@ -528,6 +528,61 @@ def live_rule(rep, u, consts):
     return n
 
 
+def password_size_rule(rep, u, consts):
+    """RFC 2865 5.2: the User-Password value is the password padded with nulls to a multiple of 16 octets, at least 16 (the
+    attribute's length is 18..130).  For password lengths 0..128 the data length radius_pkt_attr_add hands to the allocator
+    is max(16, ceil16(len)); the size query it may make to radius_pkt_attr_password_encode is answered by evaluating that
+    function for the same length."""
+    fn = u.fn("radius_pkt_attr_add")
+    enc = u.fn("radius_pkt_attr_password_encode")
+    if fn is None or enc is None:
+        raise driver.AnalysisBroken("anchor radius_pkt_attr_add / radius_pkt_attr_password_encode vanished")
+    allocs = [c for _p, _r, c, _ps in fn.calls({"radius_pkt_attr_alloc_raw"})]
+    if not allocs:
+        raise driver.AnalysisBroken("radius_pkt_attr_add does not call radius_pkt_attr_alloc_raw")
+    ty = consts["RADIUS_ATTR_TYPE_USER_PASSWORD"]
+    n = 0
+    bad = undec = None
+    enc_params = [p["n"] for p in enc.params]
+    for ln in (0, 1, 15, 16, 17, 31, 32, 33, 100, 127, 128):
+        # what the encoder reports as size for this length (size query: no buffers)
+        pe0 = r_stride.PE(u)
+        b0 = {pn_: 0 for pn_ in enc_params}
+        b0[enc_params[2]] = ln
+        b0[enc_params[-1]] = 0x7f000
+        ev0, ret0 = pe0.trace(enc, b0)
+        reported = None
+        for e, b in ev0:
+            for x, _ in walk(e):
+                if x.get("k") == "bin" and x["op"] == "=" and key(strip_casts(x["x"])) == "*(%s)" % enc_params[-1]:
+                    try:
+                        reported = r_mpt.eval_expr(x["y"], {}, pe0._hook(b, {}))
+                    except r_mpt.Unknown:
+                        reported = None
+        pe = r_stride.PE(u, call_default={"radius_pkt_attr_find": consts["ENOATTR"], "radius_pkt_attr_alloc_raw": 0,
+                                          "radius_pkt_attr_password_encode": 0 if ret0 == 0 else (ret0 if isinstance(ret0, int) else 0)})
+        if reported is not None:
+            pe.out_default = {"radius_pkt_attr_password_encode": {len(enc_params) - 1: reported}}
+        bind = {"pkt": PKT, "pkt_buf_size": 4096, "pkt_size_ret": 0, "type": ty, "len": ln, "data": 0x60000, "offset_ret": 0}
+        ev, ret = pe.trace(fn, bind)
+        n += 1
+        got = None
+        for e, b in ev:
+            for x, _ in walk(e):
+                if any(x is a for a in allocs):
+                    vs = pe.evals(x["args"][4], b, 0)
+                    got = vs[0][0] if len(vs) == 1 else None
+        want = max(16, (ln + 15) // 16 * 16)
+        if got is None:
+            undec = undec or "password length %d: allocation size not evaluable (%s)" % (ln, ret)
+        elif got != want:
+            bad = bad or "a %d-byte password is given a %d-byte value instead of %d%s" % (
+                ln, got, want, ": the attribute is shorter than the 16 octets the RFC and the library's own length check require" if got < 16 else "")
+    desc = "radius_pkt_attr_add sizes the User-Password value as max(16, ceil16(len)) for password lengths 0..128"
+    (rep.violated if bad else rep.undecided if undec else rep.proved)("R-SPEC", fn, "password-value-size", desc, bad or undec or "%d lengths" % n)
+    return n
+
+
 # ------------------------------------------------------------------ R-LAYOUT (DNS writer/reader, RADIUS append)
 
 def _stores_loads(pe, events, unit, hdr_base):
@@ -836,6 +891,7 @@ def run(rep, tier):
     rep.floor("hash stream cases", stream_rule(rep, ur, consts), 200)
     rep.floor("password hiding cases", hiding_rule(rep, ur), 12)
     rep.floor("builder arms", live_rule(rep, ur, consts), 5)
+    rep.floor("password lengths sized", password_size_rule(rep, ur, consts), 11)
     rep.floor("DNS writer/reader pairs", dns_layout_rule(rep, ud), 2)
     # the header flag words are bit-field records declared once per host byte order: both declarations name the same wire bits
     rep.floor("DNS flag bit-fields (both byte orders)", r_bitlayout.check(rep, us, "proto/dns.h"), 13)
